@@ -15,6 +15,7 @@ use nextest_runner::{
         VerifEmitted, VerifHandshake, VerifInput, VerifResponse, VerifShutdown, VerifState,
         VerifStepper,
     },
+    runner::verif_dispatcher_loop::{self, VerifRequest},
 };
 use serde_json::{json, Value};
 use std::{
@@ -433,6 +434,45 @@ pub fn run(case: &Value) -> Value {
                 }
             }
             json!({ "steps": steps })
+        }
+        // the real DispatcherContext::run loop: executor events through its channel, the
+        // report-cancel oneshot, real shutdown signals raised at this process; what every live
+        // unit received on its request channel is read back after every input
+        "loop" => {
+            let ntests = u(&case["ntests"]).min(MAX_TESTS);
+            let tests: Vec<TestInstance<'static>> = instances()[..ntests].to_vec();
+            let max_fail = match &case["max_fail"] {
+                Value::Null => None,
+                v => Some(u(v)),
+            };
+            let inputs: Vec<VerifInput> = case["events"]
+                .as_array()
+                .expect("events")
+                .iter()
+                .map(input_of)
+                .collect();
+            match verif_dispatcher_loop::run_loop(
+                tests,
+                u(&case["nscripts"]),
+                u(&case["initial"]),
+                max_fail,
+                &inputs,
+            ) {
+                Err(e) => json!({ "error": e }),
+                Ok(steps) => json!({ "steps": steps.iter().map(|st| json!({
+                    "hs": handshake_name(st.handshake),
+                    "emitted": st.emitted.iter().map(emitted_json).collect::<Vec<_>>(),
+                    "received": st.received.iter().map(|v| v.iter().map(|r| match r {
+                        VerifRequest::OtherCancel => "other_cancel".to_owned(),
+                        VerifRequest::ShutdownOnce(s) => format!("shutdown_once:{}", shutdown_name(*s)),
+                        VerifRequest::ShutdownTwice => "shutdown_twice".to_owned(),
+                        VerifRequest::Stop => "stop".to_owned(),
+                        VerifRequest::Continue => "continue".to_owned(),
+                        VerifRequest::GetInfo => "get_info".to_owned(),
+                    }).collect::<Vec<_>>()).collect::<Vec<_>>(),
+                    "loop_finished": st.loop_finished,
+                })).collect::<Vec<_>>() }),
+            }
         }
         // RunStats::on_test_finished + ExecutionStatuses::describe
         "otf" => {
